@@ -53,6 +53,11 @@ def run(ctx):
             sid += 1
             seqs = [a * k, b * k, a * (k - 1) + b, a * k + b]
             sessions.append(nc.build_session(sid, nc.make_inp("kd", "lev", k, seqs, comp=comp), with_output=False))
+    # long sequences: a letter occurring 127 / 128 (and 255 / 256) times - the widths of narrow integer types in a composition vector
+    for (a, cnt) in ((("A", 127),) if ctx.quick else (("A", 127), ("Y", 255), ("C", 128))):
+        sid += 1
+        seqs = [a * cnt + "D", a * (cnt + 1)] if ctx.quick else [a * cnt + "CDE", a * (cnt + 1) + "DE", a * (cnt - 1) + "CCDE"]
+        sessions.append(nc.build_session(sid, nc.make_inp("kd", "lev", 1 if ctx.quick else 2, seqs, comp=1), with_output=False))
     nses = 12 if ctx.quick else 120
     for r in range(nses):
         sid += 1
